@@ -60,6 +60,12 @@ def make_desc(rng, shape):
             ps.append(p)
             tid += nt; pid += 1
         looms.append({"name": "node%d" % li, "cpus": [(i, 2 * i + 1) for i in range(ncpus)], "procs": ps})
+    if ranks and len(looms) > 1 and rng.random() < 0.3:
+        # rank information on some looms only (legal: the looms are then ordered by name, the processes
+        # of a ranked loom still by rank)
+        for l in rng.sample(looms, rng.randint(1, len(looms) - 1)):
+            for p in l["procs"]:
+                p.pop("rank", None); p.pop("nranks", None)
     return {"looms": looms}
 
 
